@@ -16,7 +16,7 @@ pub fn scopes(rep: &Report, checks: Checks) {
     let rot = rotating_cfg(rep.seed);
     run_structures(rep, &format!("S({n},{d}) x all strategies x all selections, one of 36 cfgs per (tree,strategy) by (index+seed) mod 36"), &trees(n, d), &all_strats, &rot, checks, true);
     // C: all 36 configurations
-    let (n, d) = if quick { (2, 2) } else { (3, 3) };
+    let (n, d) = if quick { (2, 2) } else { (4, 3) };
     let all36 = |_: usize| Cfg::all();
     run_structures(rep, &format!("S({n},{d}) x all strategies x all selections x all 36 cfgs"), &trees(n, d), &all_strats, &all36, checks, true);
     // D: alphabet passes
@@ -34,6 +34,8 @@ pub fn scopes(rep: &Report, checks: Checks) {
     // E: depth chains
     let ch = chains(if quick { 6 } else { 8 });
     run_structures(rep, "depth chains: all object/array patterns of a single nested path", &ch, &few_strategies, &rot, checks, true);
+    // E2: selections that also name always-visible / visible claims
+    run_structures_named_visible(rep, "S(3,3) x all strategies x all selections, each selection additionally naming iss:true, exp:false", &trees(3, 3), &all_strats, &rot, checks);
     // F: iat + string sub present
     let ex = trees_with_extras(2, 2);
     run_structures(rep, "S(2,2) with iat and a string sub at the root", &ex, &all_strats, &rot, checks, true);
